@@ -1537,6 +1537,11 @@ pub fn c04(r: &mut Rng, sz: &Sizes, out: &mut Vec<String>) {
             }
         }
     }
+    for t in ["[\"\\q\"]", "[\"\\u12\"]", "{\"a\" 1}", "[1,]", "@"] {
+        let h = crate::wire::hex(t.as_bytes());
+        out.push(format!("sourcesdoc\t{h}\t{}", crate::wire::hex(b"{\"id\": 2}")));
+        out.push(format!("sourcesdoc\t{}\t{h}\t{}", crate::wire::hex(b"[1]"), crate::wire::hex(b"[2]")));
+    }
     let (dup, sib) = spelled_names();
     for t in dup.iter().chain(sib.iter()) {
         let h = crate::wire::hex(t.as_bytes());
@@ -1560,6 +1565,20 @@ pub fn c04(r: &mut Rng, sz: &Sizes, out: &mut Vec<String>) {
 
 pub fn c05(r: &mut Rng, sz: &Sizes, out: &mut Vec<String>) {
     let thorough = sz.histories > 10_000;
+    // a faulty source in FIRST and MIDDLE position among valid ones (lexical faults the parser recovers from, and
+    // structural ones): the error must describe the source that is at fault
+    for t in [
+        "{\"id\": 1, \"comment\": \"first line\\qsecond line\"}", "[\"\\u12\"]", "[\"a\u{1}b\"]", "{\"a\" 1}", "[1,]", "[1 2]", "{\"k\":tru}", "\"\u{e9}\\x\"",
+        "[\"\u{1f600}\\q\", 1]", "{\"a\":1,,\"b\":2}", "@", "[01]",
+    ] {
+        let h = crate::wire::hex(t.as_bytes());
+        let ok1 = crate::wire::hex(b"{\"id\": 2}");
+        let ok2 = crate::wire::hex(b"[1]");
+        out.push(format!("sourcesdoc\t{h}\t{ok1}"));
+        out.push(format!("sourcesdoc\t{ok2}\t{h}\t{ok1}"));
+        out.push(format!("sourcesdoc\t{h}\t{ok1}\t{ok2}\t{ok1}"));
+        out.push(format!("sourcesdoc\t{ok1}\t{h}"));
+    }
     for t in text_corpus(r, sz, thorough) {
         let h = crate::wire::hex(t.as_bytes());
         out.push(format!("inferdoc\t{h}"));
